@@ -77,6 +77,12 @@ def random_cost(rng, plain=False, coherent_only=True, maxv=7):
         mode = rng.random()
         if mode < 0.15:
             c = dict(DEFAULT)
+        elif mode < 0.25:
+            # transfers strictly cheaper than speciations and duplications: scenarios made of transfers win, bounds that
+            # count only speciations/duplications are wrong
+            spe = rng.randint(1, 3)
+            dup = rng.randint(spe, spe + 3)
+            c = {"spe": spe, "dup": dup, "hgt": rng.randint(0, spe - 1), "floss": rng.randint(1, 3), "sloss": rng.randint(0, 2)}
         else:
             hi = maxv if mode > 0.6 else 3
             c = {
